@@ -7,10 +7,14 @@
           negative when the maximum channel storage is >= 0 (it is a product of
           non-negative parameters: proportion of bank height, bank height, link
           width and length, bulk density), so the "negative = fraction of the
-          maximum" decoding never fires on a state the model itself returned. *)
+          maximum" decoding never fires on a state the model itself returned.
+      instream_dissolved_nutrient_decay_kernel_split_refuted_R
+          the refutation of HotStartWitness.v (decay ON: the previous reach volume restarts from the
+          call's own first volume) once more, in exact real arithmetic: 66.44 vs 79.4 kg/s. *)
 From Coq Require Import List Arith Lia Bool ZArith Reals Lra.
 From OW Require Import Base.Arith Base.RInst Base.Mealy KernelProofs.HotStart KernelProofs.HotStartConstituent.
-From OW Require Import Kernels.C12Common Kernels.LumpedConstituent Kernels.InstreamFineSediment Kernels.TrapAll.
+From OW Require Import Kernels.C12Common Kernels.LumpedConstituent Kernels.InstreamFineSediment Kernels.TrapAll
+  Kernels.InstreamDissolvedNutrient.
 Import ListNotations.
 Local Open Scope R_scope.
 
@@ -84,4 +88,55 @@ Proof.
   pose proof (fine_run_store_nonneg fp xs Hm st H0) as Hn.
   destruct (run (fine_step fp) st xs) as [[c' m'] os]. cbn in E, Hn. injection E as _ <- _.
   apply Rltb_false. exact Hn.
+Qed.
+
+(* ---------------------------------------------------------------- InstreamDissolvedNutrientDecay, decay on *)
+Definition dnP : dn_params (T := R) := mk_dn_params (0 / DN_SECONDS_PER_YEAR) 10 10 1000000 0 86400.
+
+(** decayed load of a step with reach volume 4e6, outflow 10, upstream 1, stored mass 100, as a function of the previous volume *)
+Lemma dn_step_decayed (prev d : R) :
+  d = (4000000 + prev) / 2 / (1000000 * 10) -> 864 / 10000 < d <= 10 ->
+  dn_decay_step dnP (100, prev) (mk_dn_in 1 0 4000000 10) =
+  ((100, 4000000), {| dno_decayedLoad := 101 - 100 * (86400 / (1000000 * d)); dno_loadDownstream := 100 * (86400 / (1000000 * d));
+                      dno_loadFromPointSource := 0 |}).
+Proof.
+  intros Hd [Hlo Hhi]. unfold dn_decay_step, dnP. cbv zeta.
+  cbn [dn_durationInSeconds dn_pointSourcePerSecond dn_linkHeight dn_linkWidth dn_linkLength dn_uptakeVelocity
+       dni_up dni_lat dni_reachVolume dni_outflow].
+  unfold gtb, DN_SECONDS_PER_DAY, DN_SECONDS_PER_YEAR. runfold.
+  replace ((4000000 + prev) / 2 / (1000000 * 10)) with d by (rewrite Hd; reflexivity).
+  rewrite (Rmin_right 10 d) by lra.
+  replace (Rltb 0 4000000) with true by (symmetry; apply Rltb_true; lra).
+  replace (Rltb 0 (d * 10)) with true by (symmetry; apply Rltb_true; lra).
+  replace (Rltb 0 10) with true by (symmetry; apply Rltb_true; lra).
+  assert (Hv : 0 < 10 / (d * 10)) by (apply Rdiv_lt_0_compat; lra).
+  replace (Rltb 0 (10 / (d * 10))) with true by (symmetry; apply Rltb_true; exact Hv).
+  replace (Rltb 0 d) with true by (symmetry; apply Rltb_true; lra).
+  replace (-1 * (0 / d) * (IZR 86400 / IZR (Z.pos 1) / 86400)) with 0 by (field; lra).
+  rewrite exp_0.
+  replace (Rleb 1 0) with false by (symmetry; apply Rleb_false; lra).
+  assert (Ht : 1000000 / (10 / (d * 10)) = 1000000 * d) by (field; lra).
+  rewrite Ht.
+  replace (Rleb (1000000 * d) 86400) with false by (symmetry; apply Rleb_false; lra).
+  f_equal. f_equal; field; lra.
+Qed.
+
+Lemma dn_step_state (p : dn_params (T := R)) s x : fst (dn_decay_step p s x) = (fst s, dni_reachVolume x).
+Proof. destruct s. reflexivity. Qed.
+
+Theorem instream_dissolved_nutrient_decay_kernel_split_refuted_R :
+  exists p s0 ins n, ~ split_at (instream_dissolved_nutrient_decay_kernel (A := RArith) p) s0 ins n.
+Proof.
+  exists [1; 0; 10; 10; 1000000; 0; 86400], [100], [[1; 1]; [0; 0]; [1000000; 4000000]; [10; 10]; [0; 0]], 1%nat.
+  unfold split_at, split_then, instream_dissolved_nutrient_decay_kernel.
+  cbn [firsts lasts map firstn skipn].
+  assert (Hd : (@ltb R RArith 1 (@of_q R RArith 1 2)) = false) by (cbn [ltb of_q RArith]; apply Rltb_false; lra).
+  rewrite !Hd.
+  change (mk_dn_params (div 0 DN_SECONDS_PER_YEAR) 10 10 1000000 0 86400) with dnP.
+  unfold dn_rows, zip4, zip3. cbn [combine map run].
+  destruct (dn_decay_step dnP (100, 1000000) (mk_dn_in 1 0 1000000 10)) as [s1 o1] eqn:E1.
+  pose proof (dn_step_state dnP (100, 1000000) (mk_dn_in 1 0 1000000 10)) as S1. rewrite E1 in S1. cbn in S1. subst s1.
+  rewrite (dn_step_decayed 1000000 (1 / 4)) by lra.
+  rewrite (dn_step_decayed 4000000 (4 / 10)) by lra.
+  cbn. intros H. injection H as H. lra.
 Qed.
